@@ -866,8 +866,22 @@ fn run_pair(r: &mut Report, args: &Args, pair: &Pair, rng: &mut Rng) {
                     }
                     _ => sig.clone(),
                 };
+                // One root cause, many file names: a write that fails while
+                // the rsync tree is being written leaves the tree as it was;
+                // the retry of the update task finds the RRDP state complete
+                // and does not write the tree again, so it stays behind the
+                // snapshot until the next publication.
+                let rsync_stage = realisation == "eio"
+                    && label.starts_with("fs:") && label.contains("/repo/rsync/")
+                    && sig.starts_with("state-diverges")
+                    && detail.contains("/rsync_tree/");
+                let sig = if rsync_stage {
+                    "rsync-tree-stale-after-failed-rsync-write".to_string()
+                } else { sig };
                 let label = if sig.starts_with("listener-state-ahead") {
                     "window".to_string()
+                } else if rsync_stage {
+                    "rsync-stage".to_string()
                 } else { label.clone() };
                 r.violation(
                     &format!("{sig}@{realisation}:{label}"),
